@@ -13,6 +13,7 @@ ASSUMPTIONS = [
     "programs whose uninterrupted run ends in ExceededMaximumCycles are only used when they are known never to terminate (infinite_loop, infinite_exec, fib(100) callee, spawn_huge_swap); a finite program that merely does not fit the reference budget is skipped, because step budgets are not cumulative",
     "signal path: a command is delivered while the VM is parked at a simulator-chosen cycle count; the real VM notices the real pause flag at its next jump instruction (ckb-vm asm checks the flag in .prepare_trace only). Stop: if the VM paused on it the result must be Interrupts; if the program ended before the next flag check the result must equal the uninterrupted one",
     "the real parent task forwards Resume/Stop with child_tx.send, which blocks on the child watch channel's lock while scheduler.run executes (the child holds `child_rx.borrow()` across the run); commands that would arrive while the parent is blocked are dropped by the simulator (counted as probe command_dropped_parent_blocked_in_child_send), and a Resume that finds the pause flag clear is preceded by a Suspend at the same parked cycle so that its handling is observable",
+    "signal schedules that enable the re-created debug pause syscall carry no Stop command: a Stop that is in flight when the script pauses ITSELF through that syscall leaves the parent and child tasks of chunk_run_with_signal waiting for each other for ever (two of 16000 thorough seeds: a Stop before the first debug pause of load_is_even_with_snapshot / exec_configurable). The syscall exists only under #[cfg(test)] in ckb-script, so this is not reachable in a node; Stop is exercised in schedules without the syscall",
     "the test-only debug pause syscall 2178 is re-created from script/src/syscalls/pause.rs; with it enabled, complete() is not used (it reports a debug pause as the cycle limit by design)",
     "ckb-vm (asm machine), blake2b/secp256k1 code inside the scripts and the molecule/daggy crates used to build spawn_dag inputs are trusted",
 ]
